@@ -286,6 +286,13 @@ class CacheHarness:
                         s.sleep(spec['pause'])
                     if life == 'noclose':
                         return
+                    if life == 'resume':
+                        # the loop is simply run again later (a GUI / REPL style owner): what it left pending goes on
+                        pend = [t for t in tasks if not t.done()]
+                        emit('lresume', lname, len(pend))
+                        if pend:
+                            loop.run_until_complete(aio.gather(*pend, return_exceptions=True))
+                        life = 'runner'
                     if life == 'runner':
                         s.yield_point('pre-cancel')
                         ts = aio.all_tasks(loop)
@@ -320,6 +327,29 @@ class CacheHarness:
                 s.block(lambda: all(t.st == simrt.DONE for t in ths), None, 'epilogue-join')
                 keys = sorted({c['key'] for t in scen['threads'] for c in t['callers']})
                 had = {k for k in keys if any(kk[0] == (k,) for kk in list(cache))}
+                if scen['epilogue'] == 'hit_first':
+                    # nothing has been evicted so far: every key somebody already received a value for is requested
+                    # once more before the eviction
+                    def pre_epi():
+                        loop = aio.new_event_loop()
+                        aio.set_event_loop(loop)
+
+                        async def once():
+                            for k in keys:
+                                cid_var.set(f'P.{k}')
+                                emit('call', f'P.{k}', k, loop.sim_name)
+                                try:
+                                    r = await cf(k)
+                                    emit('ret', f'P.{k}', 'ok', r)
+                                except HarnessError as e:
+                                    emit('ret', f'P.{k}', 'exc', 'HarnessError', e.args[0])
+                                except BaseException as e:      # noqa
+                                    emit('ret', f'P.{k}', 'exc', type(e).__name__, repr(e)[:100])
+                        loop.run_until_complete(once())
+                        loop.close()
+                    pe = s.spawn(pre_epi, 'P')
+                    s.block(lambda: pe.st == simrt.DONE, None, 'epilogue-join0')
+                    had = {k for k in keys if any(kk[0] == (k,) for kk in list(cache))}
                 emit('evict_all', sorted(had))
                 for kk in list(cache):
                     del cache[kk]
